@@ -79,7 +79,14 @@ Definition c_on_channel_finished (c : cop) : CR_ :=
                  end in
   (c1, l ++ [CFinished]).
 
-Inductive cop_op := CStart | CTurn | CStop | CFeed (b : bytes) | CFinish.
+Inductive cop_op := CStart | CTurn | CStop | CFeed (b : bytes) | CFinish | CSetBs (n : Z).
+
+(* QIODeviceCopier::setBufferSize: the block size from the next block on *)
+Definition set_bs (c : cop) (n : Z) : cop :=
+  {| c_content := c_content c; c_seq := c_seq c; c_pos := c_pos c; c_buf := c_buf c; c_src_closed := c_src_closed c;
+     f_open_src := f_open_src c; f_open_dst := f_open_dst c; f_seek := f_seek c; f_read := f_read c; f_write := f_write c;
+     c_bs := n; c_from := c_from c; c_to := c_to c;
+     c_stopped := c_stopped c; c_pending := c_pending c; c_connected := c_connected c |}.
 
 Definition c_step (c : cop) (o : cop_op) : CR_ :=
   match o with
@@ -96,6 +103,7 @@ Definition c_step (c : cop) (o : cop_op) : CR_ :=
       if negb (c_seq c) then (c, [])                   (* only a sequential source delivers data over time *)
       else if c_connected c then c_on_ready_read c1 else (c1, [])
   | CFinish => if c_seq c && c_connected c then c_on_channel_finished c else (c, [])
+  | CSetBs n => (set_bs c n, [])
   end.
 
 Fixpoint c_run (k : Z) (c : cop) (ops : list cop_op) : CR_ :=
@@ -109,7 +117,7 @@ Fixpoint c_run (k : Z) (c : cop) (ops : list cop_op) : CR_ :=
 
 (* ---- correspondence entry point: family "copier" ------------------------------------------
    case ::= ( content seq bs from to (fopen_src fopen_dst fseek fread fwrite) ops )
-   op   ::= (0) start | (1) turn | (2) stop | (3 bytes) feed | (4) finish
+   op   ::= (0) start | (1) turn | (2) stop | (3 bytes) feed | (4) finish | (5 n) setBufferSize
    obs  ::= ( (20 k) | (1 bytes) write | (2) error | (3) finished ... )                        *)
 Definition dec_cop_op (v : value) : option cop_op :=
   match v with
@@ -118,6 +126,7 @@ Definition dec_cop_op (v : value) : option cop_op :=
   | VL [VI 2] => Some CStop
   | VL [VI 3; VB b] => Some (CFeed b)
   | VL [VI 4] => Some CFinish
+  | VL [VI 5; VI n] => Some (CSetBs n)
   | _ => None
   end.
 Fixpoint dec_cop_ops (l : list value) : option (list cop_op) :=
